@@ -5,9 +5,17 @@
     [xtx] ([NoCall]: a panic precedes the call).  The check demands (i) that the model reaches the call
     exactly when the record exists and passes a BIT-EQUAL argument (a miss is a disagreement), and
     (ii) that the model, with [inv] answered from the record, reproduces the implementation's outcome
-    bit for bit.  So the dataflow into and out of the solve is checked. *)
+    bit for bit.  So the dataflow into and out of the solve is checked.
+
+    END-TO-END cases ([CFitE], [CSeqE]): nothing is recorded.  [inv] is C01's executable model of
+    [invert_matrix] ([slice_invert], Model/SolveInst.v: routing predicate, fallible Cholesky sweep, LU
+    fall-back, substitutions, row/column-major conversions) run on binary64, so the whole of
+    [PolynomialRegressor::fit] (and whole programs of fits and predictions) is reproduced bit for bit by one
+    Gallina term.  The recorded-table cases are kept: when an end-to-end case disagrees they tell whether
+    the disagreement is inside the solve (table case agrees) or around it. *)
 From Coq Require Import List Floats ZArith Bool.
-From Compute Require Export Base.Ops Base.ListMat Model.Reduce Model.MatMul Model.Poly.
+From Compute Require Export Base.Ops Base.ListMat Model.Reduce Model.MatMul Model.Poly
+  Model.Subst Model.Cholesky Model.LU Model.Solve Model.SolveInst.
 Import ListNotations.
 
 Inductive rec := NoCall | Call (arg : list float) (res : outcome (list float)).
@@ -21,7 +29,9 @@ Inductive case :=
 | CVander (x : list float) (n : nat) (e : outcome (list float))
 | CPredict (coef x : list float) (e : outcome (list float))
 | CFit (k : nat) (x y : list float) (r : rec) (e : outcome (list float))
-| CSeq (deg : nat) (ops : list cop) (e : outcome (list float)).
+| CSeq (deg : nat) (ops : list cop) (e : outcome (list float))
+| CFitE (k : nat) (x y : list float) (e : outcome (list float))
+| CSeqE (deg : nat) (ops : list cop) (e : outcome (list float)).
 
 Definition inv_of (r : rec) (a : list float) : option (list float) :=
   match r with
@@ -63,4 +73,7 @@ Definition check (c : case) : bool :=
   | CPredict coef x e => fout_eqb (Val (predict FO0 coef x)) e
   | CFit k x y r e => hit k x y r && fout_eqb (opt_out (fit FO0 (inv_of r) k x y)) e
   | CSeq deg ops e => let '(h, r) := crun (new FO0 deg) ops in h && fout_eqb (opt_out r) e
+  | CFitE k x y e => fout_eqb (opt_out (fit FO0 (slice_invert FO0) k x y)) e
+  | CSeqE deg ops e =>
+      fout_eqb (opt_out (option_map snd (run FO0 (slice_invert FO0) (new FO0 deg) (map to_op ops)))) e
   end.
